@@ -54,11 +54,18 @@ def plan(ctx):
 def gen_trials(ctx, nsc, per, tag="sc"):
     rng = ctx.rng.fork(tag)
     lines, meta = [], []
+    scen = []
     for i in range(nsc):
         r = rng.fork("s%d" % i)
-        crash = r.choice([1, 1, 0, 2])
+        crash = r.choice([1, 1, 0, 2, 2])
         mode, ops = T.gen_scenario(r, crash)
-        tl = T.enumerate_trials(r, mode, ops, per, crash)
+        scen.append((r, crash, mode, ops))
+    # probe run: at which steps does the crash node have user events pending?
+    probes = T.run_harness(ctx.bin_path("h_restart"), [T.probe_line(m, o, c) for (_, c, m, o) in scen], os.path.join(ctx.tmp, "run"), tag + "_probe",
+                           jobs=core.NPROC, timeout=600)
+    for i, ((r, crash, mode, ops), pr) in enumerate(zip(scen, probes)):
+        ev = set(pr.get("event_steps", [])) if isinstance(pr, dict) else set()
+        tl = T.enumerate_trials(r, mode, ops, per, crash, ev)
         lines += tl
         meta += [{"scenario": i, "n_ops": len(ops)}] * len(tl)
     return lines, meta
